@@ -2,4 +2,75 @@
 
 package main
 
-func genExhaustive(emit func(string)) {}
+import "fmt"
+
+// genExhaustive: thorough tier.  Every zone with apex "z" and at most two
+// further owners drawn from all names of depth <= 3 over the label alphabet
+// {a, b, *}, every assignment of a node kind (data, CNAME-only, insecure
+// delegation, DNAME; wildcard owners: data / CNAME only), every non-empty
+// subset of its NSEC chain, every question name of depth <= 3 (plus one
+// label below every depth-3 name) with types A and DS: all three NSEC
+// validators, the RFC 8198 classifier and the delegation check.
+func genExhaustive(emit func(string)) {
+	apex := name{"z"}
+	labels := []string{"a", "b", "*"}
+	var pool []name
+	for _, l1 := range labels {
+		pool = append(pool, apex.child(l1))
+		for _, l2 := range labels {
+			pool = append(pool, apex.child(l1).child(l2))
+		}
+	}
+	var queries []name
+	queries = append(queries, apex)
+	queries = append(queries, pool...)
+	for _, p := range pool {
+		if len(p) == 3 {
+			queries = append(queries, p.child("a"))
+		}
+	}
+	kinds := [][]uint16{{tA}, {tCNAME}, {tNS}, {tDNAME}}
+	kindsFor := func(n name) [][]uint16 {
+		if n[0] == "*" {
+			return kinds[:2]
+		}
+		return kinds
+	}
+	emitZone := func(owners []name, ks [][]uint16) {
+		z := newZone(apex, 1)
+		z.add(apex, authTypes(tSOA, tNS, tDNSKEY)...)
+		for i, o := range owners {
+			z.add(o, authTypes(ks[i]...)...)
+		}
+		emit("z new " + z.String())
+		ch := z.chain()
+		for mask := 1; mask < 1<<uint(len(ch)); mask++ {
+			var set []rec
+			for i, rc := range ch {
+				if mask&(1<<uint(i)) != 0 {
+					set = append(set, rc)
+				}
+			}
+			emit("z set " + recsStr(set))
+			for _, q := range queries {
+				for _, t := range []uint16{tA, tDS} {
+					emit(fmt.Sprintf("z nxd z %s %d", q, t))
+					emit(fmt.Sprintf("z nod z %s %d", q, t))
+					emit(fmt.Sprintf("z agg z %s %d 1", q, t))
+				}
+				emit(fmt.Sprintf("z dlg z %s", q))
+			}
+		}
+	}
+	emitZone(nil, nil)
+	for i, o1 := range pool {
+		for _, k1 := range kindsFor(o1) {
+			emitZone([]name{o1}, [][]uint16{k1})
+			for _, o2 := range pool[i+1:] {
+				for _, k2 := range kindsFor(o2) {
+					emitZone([]name{o1, o2}, [][]uint16{k1, k2})
+				}
+			}
+		}
+	}
+}
